@@ -130,13 +130,26 @@ func dumpLeaves(repo, name string) {
 		}
 		ls, err := ir.Leaves(fn, ir.LeafOptions{Forward: true, Effects: true, MaxPaths: 100000, Inline: inl})
 		if err != nil {
+			fmt.Println("loop-free enumeration failed:", err, "-- cutting loops")
+			ls, err = ir.Leaves(fn, ir.LeafOptions{Forward: true, Effects: true, MaxPaths: 100000, Inline: inl, CutLoops: true})
+		}
+		if err != nil {
 			fmt.Println("error:", err)
 			return
 		}
 		for i, l := range ls {
 			fmt.Printf("leaf %d  (return at %s)\n", i, p.Pos(l.Pos))
+			for _, c := range l.Cuts {
+				fmt.Printf("   cut at header block %d after %d guards, %d effects\n", c.Header.Index, c.NG, c.NE)
+			}
 			for _, g := range l.Guards {
 				fmt.Println("   guard ", g.Pretty())
+			}
+			if l.End != nil {
+				fmt.Printf("   ARRIVES at header block %d (back edge: %v)\n", l.End.Header.Index, l.End.Back)
+				for ph, t := range l.End.State {
+					fmt.Printf("      %s := %s\n", ir.PhiVar(ph).Pretty(), t.Pretty())
+				}
 			}
 			for _, e := range l.Effects {
 				switch e.Kind {
